@@ -150,7 +150,46 @@ def fix_numeric(t):
     return t
 
 
+def sparse_tree(rng):
+    """trees in which whole categories are empty (no struct at all, only a device, ...) and one rule is violated or none:
+    every rule must be applied whatever else is absent"""
+    sd = {"structs": [], "enums": [], "impls": [], "services": [], "devices": []}
+    en = lambda n, items: {"name": n, "enumeration": [{"name": a, "value": v} for a, v in items]}
+    k = rng.choice(["dup-enum", "dup-enum-3", "dup-enumerator", "dup-value", "enum-ok", "device-missing", "device-ok",
+                    "impl-nowhere", "impl-enum", "service-only", "dup-impl-nowhere"])
+    if k == "dup-enum":
+        sd["enums"] = [en("E", [("P", 0)]), en("E", [("Q", 1)])]
+    elif k == "dup-enum-3":
+        sd["enums"] = [en("E", [("P", 0)]), en("F", [("Q", 1)]), en("E", [("R", 2)])]
+    elif k == "dup-enumerator":
+        sd["enums"] = [en("E", [("P", 0), ("P", 1)])]
+    elif k == "dup-value":
+        sd["enums"] = [en("E", [("P", 0), ("Q", 0)])]
+    elif k == "enum-ok":
+        sd["enums"] = [en("E", [("P", 0), ("Q", 1)])]
+    elif k == "device-missing":
+        sd["devices"] = [{"name": "d0", "fields": {"services": ["s9"]}}]
+        if rng.random() < 0.5:
+            sd["enums"] = [en("E", [("P", 0)])]
+    elif k == "device-ok":
+        sd["services"] = [{"name": "s1", "id": 0, "methods": []}]
+        sd["devices"] = [{"name": "d0", "fields": {"services": ["s1"]}}]
+    elif k == "impl-nowhere":
+        sd["impls"] = [{"name": "Z", "protocol": "can", "type": "Z", "fields": {"id": 1}, "signals": []}]
+    elif k == "impl-enum":
+        sd["enums"] = [en("E", [("P", 0)])]
+        sd["impls"] = [{"name": "E", "protocol": "can", "type": "E", "fields": {"id": 1}, "signals": []}]
+    elif k == "service-only":
+        sd["services"] = [{"name": "s1", "id": 0, "methods": []}]
+    elif k == "dup-impl-nowhere":
+        sd["impls"] = [{"name": "Z", "protocol": "x", "type": "Z", "fields": {}, "signals": []},
+                       {"name": "Z", "protocol": "x", "type": "Z", "fields": {}, "signals": []}]
+    return sd
+
+
 def rnd_tree(rng):
+    if rng.random() < 0.08:
+        return sparse_tree(rng)
     sd = {"structs": [], "enums": [], "impls": [], "services": [], "devices": []}
     ns = rng.choice([0, 1, 1, 2, 2, 3])
     snames = []
